@@ -123,14 +123,16 @@ def rule_operators(ctx):
             ctx.check("C01.3", ok, m, rets[0].node if rets else m.node, f"{cls}.{meth} [raw operand] result class", "raw operand wrapped by the receiver's class", "a raw (scalar/array) operand does not yield an object of the receiver's class")
     # __call__, copy, __getitem__ class preservation
     for cls in CLASSES:
-        for meth, ass in (("__call__", {"domain": "w", "shift": False, "self.noise": "notnone"}), ("copy", {"n": None, "self.noise": "notnone", "self.n_pol": 1}),
-                          ("__getitem__", {"self.noise": "notnone", "self.n_pol": 1})):
+        cases = [("__call__", {"domain": d, "shift": sh, "self.noise": nz}) for d in ("w", "t") for sh in (True, False) for nz in ("none", "notnone")]
+        cases += [(mm, {"n": None, "self.noise": nz, "self.n_pol": npol} if mm == "copy" else {"self.noise": nz, "self.n_pol": npol})
+                  for mm in ("copy", "__getitem__") for nz in ("none", "notnone") for npol in (1, 2)]
+        for meth, ass in cases:
             m = pkg.find_method("typing", cls, meth)
             it = Interp(pkg, self_class=cls, assumptions=ass)
             outs = it.run(m)
             rets = [o for o in outs if o.kind == "return"]
             ok = len(rets) >= 1 and all(isinstance(r.value, ObjV) and r.value.cls == cls for r in rets)
-            ctx.check("C01.3", ok, m, rets[0].node if rets else m.node, f"{cls}.{meth} result class", "receiver's dynamic class", f"{meth} does not return an object of the receiver's class {cls}")
+            ctx.check("C01.3", ok, m, rets[0].node if rets else m.node, f"{cls}.{meth} result class [{', '.join(f'{k}={v}' for k, v in sorted(ass.items()))}]", "receiver's dynamic class", f"{meth} does not return an object of the receiver's class {cls}")
 
 
 def rule_length_guard(ctx):
